@@ -119,6 +119,15 @@ where
         let (fri_layer_queries, fri_layer_proofs) = fri_proof
             .parse_layers::<E, H, V>(lde_domain_size, fri_options.folding_factor())
             .map_err(|err| VerifierError::ProofDeserializationError(err.to_string()))?;
+        // the FRI verifier takes one layer per folding step out of the channel; a proof with a
+        // different number of layers must be rejected here
+        if fri_layer_proofs.len() != fri_options.num_fri_layers(lde_domain_size) {
+            return Err(VerifierError::ProofDeserializationError(format!(
+                "expected {} FRI layers, but the proof contains {}",
+                fri_options.num_fri_layers(lde_domain_size),
+                fri_layer_proofs.len()
+            )));
+        }
 
         // --- parse out-of-domain evaluation frame -----------------------------------------------
         let (ood_trace_frame, ood_constraint_evaluations) = ood_frame
